@@ -24,7 +24,7 @@ type CertDef struct {
 	Key string // pool key name
 	// KeyIDClass: "ysshca0".."ysshca6" (the 7 types), "missing", "version", "inconsistent", "text", "empty"
 	KeyIDClass string
-	// Validity: current | forever | past | justpast | future | soon | lapsing | zero | aftermax | beforebig
+	// Validity: current | forever | past | justpast | future | soon | lapsing | opening | zero | aftermax | beforebig
 	Validity string
 	Serial   uint64
 	// Host: a host certificate instead of a user certificate
@@ -52,6 +52,8 @@ type Op struct {
 	Lifetime uint32      `json:",omitempty"`
 	Body     []byte      `json:",omitempty"`
 	Plan     []FaultRule `json:",omitempty"`
+	// IdleMS (kind idle): nothing happens for that long (the shim agent is a long-lived object)
+	IdleMS int `json:",omitempty"`
 }
 
 // ShimCase is a whole history.
@@ -141,6 +143,10 @@ type world struct {
 	hasLapsing bool
 	lapsed     bool
 	lapseVB    int64
+	// the mirror image: one certificate whose window OPENS 3 s after the start of the history
+	hasOpening bool
+	opened     bool
+	openVA     int64
 }
 
 const critName = "touchless-sudo-hosts"
@@ -237,6 +243,9 @@ func (w *world) buildCerts(now int64) {
 		case "lapsing":
 			s.ValidAfter, s.ValidBefore = uint64(now-3600), uint64(now+2)
 			w.hasLapsing, w.lapseVB = true, now+2
+		case "opening":
+			s.ValidAfter, s.ValidBefore = uint64(now+3), uint64(now+7200)
+			w.hasOpening, w.openVA = true, now+3
 		case "justpast": // expired a few seconds ago
 			s.ValidAfter, s.ValidBefore = uint64(now-3600), uint64(now-5)
 		case "soon":
@@ -653,6 +662,14 @@ func (w *world) waitLapse() {
 	w.lapsed = true
 }
 
+func (w *world) waitOpen() {
+	for time.Now().Unix() < w.openVA {
+		time.Sleep(100 * time.Millisecond)
+	}
+	time.Sleep(50 * time.Millisecond)
+	w.opened = true
+}
+
 func (w *world) step(i int, op Op) error {
 	where := fmt.Sprintf("step %d (%s)", i, op.Kind)
 	if strings.HasPrefix(op.Kind, "oob") {
@@ -665,6 +682,16 @@ func (w *world) step(i int, op Op) error {
 		}
 		return nil
 	}
+	if op.Kind == "idle" {
+		time.Sleep(time.Duration(op.IdleMS) * time.Millisecond)
+		return nil
+	}
+	if op.Kind == "open" {
+		if w.hasOpening && !w.opened {
+			w.waitOpen()
+		}
+		return nil
+	}
 	if op.Kind == "plan" {
 		w.p.SetPlan(op.Plan)
 		return nil
@@ -674,6 +701,9 @@ func (w *world) step(i int, op Op) error {
 	}
 	if w.hasLapsing && !w.lapsed && time.Now().Unix()+1 >= w.lapseVB {
 		w.waitLapse()
+	}
+	if w.hasOpening && !w.opened && time.Now().Unix()+1 >= w.openVA {
+		w.waitOpen()
 	}
 	ringBefore := w.ring()
 	f0, _ := w.faultCount()
@@ -809,6 +839,10 @@ func (w *world) step(i int, op Op) error {
 		w.tr.TimeAmbiguous = true
 		return nil
 	}
+	if w.hasOpening && !w.opened && time.Now().Unix() >= w.openVA {
+		w.tr.TimeAmbiguous = true
+		return nil
+	}
 	if w.soonVA != 0 && time.Now().Unix()+2 >= w.soonVA {
 		w.tr.TimeAmbiguous = true
 		return nil
@@ -836,7 +870,7 @@ func (w *world) step(i int, op Op) error {
 			}
 			// whatever went wrong underneath: an answer that does come back never contains a certificate
 			// outside its validity window, and no signature is made with one
-			if opErr == nil && !w.locked && !w.hasLapsing {
+			if opErr == nil && !w.locked && !w.hasLapsing && !w.hasOpening {
 				var shownBlobs [][]byte
 				for _, k := range keys {
 					shownBlobs = append(shownBlobs, k.Blob)
